@@ -17,6 +17,10 @@ mkdir -p "$root/harness"
 hf="${HARNESS_FROM:-/verif/harness}"
 cp -r "$hf/src" "$hf/Cargo.lock" /verif/harness/.cargo "$root/harness/"
 sed "s#path = \"/repo\"#path = \"$root/repo\"#" "$hf/Cargo.toml" > "$root/harness/Cargo.toml"
+# the no-default-features crate (lane nd) lives next to the harness
+mkdir -p "$root/harness_nd"
+cp -r "$(dirname "$hf")/harness_nd/src" "$(dirname "$hf")/harness_nd/Cargo.lock" "$(dirname "$hf")/harness_nd/.cargo" "$root/harness_nd/" 2>/dev/null
+[ -f "$(dirname "$hf")/harness_nd/Cargo.toml" ] && sed "s#path = \"/repo\"#path = \"$root/repo\"#" "$(dirname "$hf")/harness_nd/Cargo.toml" > "$root/harness_nd/Cargo.toml"
 export HBV_HARNESS_DIR="$root/harness" HBV_TARGET_DIR="$root/target" HBV_REPLAY_DIR="$root/replays" HBV_EVIDENCE_DIR="$root/evidence"
 cd /verif
 for id in "$@"; do
